@@ -16,7 +16,7 @@ LEVEL = 'model_checking'
 TECHNIQUE = ('bounded exhaustive enumeration of (program, pattern/template, nested, count, on, loop, back) on the real sub()/subn(), each '
              'result compared with a reference pure-AST transformer (structure, counts), C01 and line preservation outside the '
              'substituted statements')
-LEVEL_TEXT = ('18 programs x 16 (pattern, template) pairs (single-node, whole-match, swap, unwrap, slice, multi-node Dict, statement with '
+LEVEL_TEXT = ('22 programs x 22 (pattern, template) pairs (single-node, whole-match, swap, unwrap, slice, multi-node Dict, statement with '
               'slice captures, identity) x all combinations of nested/count/on/loop/back that the reference defines are executed on the '
               'real code and compared with the reference transformer')
 LEVEL_NOTE = ('trusted: CPython ast (unparse->parse normal form) and the reference transformer written from the documented semantics '
